@@ -169,6 +169,17 @@ def scenario(x, p):
                     'anything is written', False)
 
 
+def _png_cart():
+    import os
+    repo = os.environ.get('SYMX_REPO', '/repo')
+    with open(os.path.join(repo, 'tests', 'testdata', 'test_cart.p8.png'),
+              'rb') as fh:
+        return fh.read()
+
+
+PNG_CART = _png_cart()
+
+
 def cli(x, p):
     """Commands that write over an existing file, through tool.main, with
     input that makes producing the cart fail; plus the same commands with
@@ -177,29 +188,62 @@ def cli(x, p):
     cmd = x.choice('cmd', ['luafmt --overwrite', 'luafmt', 'luamin',
                            'build', 'build --lua-minify'])
     bad = x.choice('input', ['good', 'unknown syntax', 'junk tail',
-                             'unlexable'])
+                             'unlexable', 'missing keep file'])
     codes = {'good': b'x=1\nif (x) y=2\n',
              'unknown syntax': b'x=1\na |= 1\ny=2\n',
              'junk tail': b'x=1\nfoo bar\n',
-             'unlexable': b'x="abc\ny=2\n'}
+             'unlexable': b'x="abc\ny=2\n',
+             'missing keep file': b'x=1\nif (x) y=2\n'}
     code = codes[bad]
+    # the destination before the command: a cart, nothing, or a file that
+    # is not a cart at all
+    dest_state = x.choice('dest', ['cart', 'absent', 'not a cart'])
+    in_fmt = x.choice('in_fmt', ['.p8', '.p8.png'])
     old = clikit.p8_text(b'old=1\n')
     files = {}
-    if cmd.startswith('luafmt') or cmd == 'luamin':
-        files['/w/in.p8'] = clikit.p8_text(code)
-        if cmd == 'luafmt --overwrite':
-            dest = '/w/in.p8'
-            argv = ['luafmt', '--overwrite', '/w/in.p8']
+    extra = []
+    if bad == 'missing keep file':
+        if cmd in ('luamin', 'build --lua-minify'):
+            extra = ['--keep-names-from-file', '/w/nokeep.txt']
         else:
-            dest = '/w/in_fmt.p8'
-            files[dest] = old
-            argv = [cmd, '/w/in.p8']
+            x.tag('n/a')
+            return
+    if cmd.startswith('luafmt') or cmd == 'luamin':
+        src_name = '/w/in' + in_fmt
+        if in_fmt == '.p8':
+            files[src_name] = clikit.p8_text(code)
+        else:
+            if bad not in ('good', 'missing keep file'):
+                x.tag('n/a')
+                return
+            files[src_name] = PNG_CART
+            code = None
+        if cmd == 'luafmt --overwrite' and in_fmt == '.p8':
+            dest = src_name
+            argv = ['luafmt', '--overwrite', src_name]
+            if dest_state != 'cart':
+                x.tag('n/a')
+                return
+        elif cmd == 'luafmt --overwrite':
+            # (documented: only .p8 files are overwritten in place)
+            dest = '/w/in_fmt' + in_fmt
+            argv = ['luafmt', '--overwrite', src_name]
+        else:
+            dest = '/w/in_fmt' + in_fmt
+            argv = [cmd] + extra + [src_name]
     else:
+        if in_fmt != '.p8':
+            x.tag('n/a')
+            return
         files['/w/main.lua'] = code
         dest = '/w/out.p8'
-        files[dest] = old
-        argv = cmd.split(' ') + ['--lua', '/w/main.lua', dest]
-    before = files[dest]
+        argv = cmd.split(' ') + extra + ['--lua', '/w/main.lua', dest]
+    if dest not in files:
+        if dest_state == 'cart':
+            files[dest] = old if dest.endswith('.p8') else PNG_CART
+        elif dest_state == 'not a cart':
+            files[dest] = b'notes to self: not a cart\n'
+    before = files.get(dest)
     fs = clikit.MemFS(x, files)
     rc, exc = clikit.run_main(argv)
     x.out('rc', repr(rc))
@@ -211,10 +255,14 @@ def cli(x, p):
                 fs.files.get(dest) == before)
         x.check('a failed command creates no other file',
                 clikit.changed(fs) == [])
-    if bad == 'good':
+    if bad == 'good' and not (dest_state == 'not a cart' and (
+            cmd.startswith('build') or dest.endswith('.p8.png'))):
+        # (build reads OUT first, a .p8.png is written over the picture
+        # found at the destination: a file that is not a cart fails both)
         x.check('with good input the command succeeds and writes the '
                 'destination', And(exc is None, rc == 0, wrote))
-    if wrote and exc is None and rc == 0:
+    if wrote and exc is None and rc == 0 and code is not None and \
+            dest.endswith('.p8'):
         # whatever was written is a complete, loadable cart holding all of
         # the code's tokens (never a shortened program)
         got = clikit.lua_of(fs.files[dest])
